@@ -1176,6 +1176,10 @@ fn scalar_of(r: &RNode, pos: Pos) -> Option<&RNode> {
 /// Render the scalar at `pos` and confirm with the raw parser that the document
 /// is exactly that scalar (value, style, tag). Returns (doc, value as parsed).
 fn build_doc(text: &str, style: Style, tag: Option<&str>, pos: Pos, ro: &RenderOpts) -> Option<(String, String)> {
+    if matches!(pos, Pos::Key | Pos::EnumKey) && style == Style::Plain && text == "<<" {
+        // a plain `<<` key is a merge key (property C03), not a scalar to interpret
+        return None;
+    }
     let n = wrap(scalar_node(text, style, tag), pos);
     let (doc, r) = render_checked(&n, ro)?;
     if doc.starts_with('\u{FEFF}') {
@@ -1759,23 +1763,39 @@ fn main() {
 
     flush_report_totals(&run);
     let styles_scope = if tier == Tier::Quick {
-        "{plain, double} x {no tag, !!str, !!binary} (plus, per token, one rotating other (style, tag) pair out of the full 5 x 9)"
+        "{plain, double, literal(strip)} x {no tag, !!str, !!binary, !!int} (plus, per token, one rotating other (style, tag) pair out of the full 5 x 9)"
     } else {
         "{plain, double, single, literal(strip), folded(clip)} x {no tag, !!str, !!binary, !!int, !!float, !!bool, !!null, !, !custom}"
     };
+    let arrival_scope = if tier == Tier::Quick {
+        "{plain, double} x {no tag, !!str, !!binary} x option vectors {0000, 0011, 1100, 1111}"
+    } else {
+        "{plain, double, literal} x {no tag, !!str, !!binary, !!int, !!null} x all 16 option vectors"
+    };
     let scope = format!(
-        "(1) every token of the fixed corpus ({} tokens: every width boundary -2..+1 for 8/16/32/64/128 bits signed and unsigned and magnitudes >= 2^128, in radix 10/16/8/2 and legacy-octal spelling, x sign none/+/- x 11 decorations (separators, leading zeros, prefix and digit case); all casings of y/n/yes/no/on/off/true/false/null; float forms; char and string edge cases; base64 payloads) x {styles_scope} x positions {{root, sequence item, mapping value}} x {} targets x all 16 option vectors (strict_booleans, no_schema, legacy_octal_numbers, ignore_binary_tag_for_string); (2) every string of length <= {max_len} over the 12 symbols A B / + = Z a 0 SP LF ? - as a !!binary payload (double-quoted, and plain where the raw parser confirms it) into Bytes / Vec<u8> / String / Val; (3) base64 encodings of all byte arrays of length <= 2",
+        "(1) every token of the fixed corpus ({} tokens: every width boundary -2..+1 for 8/16/32/64/128 bits signed and unsigned and magnitudes >= 2^128, in radix 10/16/8/2 and legacy-octal spelling, x sign none/+/- x 11 decorations (separators, leading zeros, prefix and digit case); all casings of y/n/yes/no/on/off/true/false/null; float forms; char and string edge cases; base64 payloads) x {styles_scope} x positions {{root, sequence item, mapping value}} x {} targets x all 16 option vectors (strict_booleans, no_schema, legacy_octal_numbers, ignore_binary_tag_for_string); \
+         (2) the same corpus arriving through an alias in a sequence, an alias as a mapping value, a merged mapping value, and as a mapping KEY of each of the {} target types: {arrival_scope}; \
+         (3) {} tokens = the 64- and 128-bit boundaries (max-1, max, max+1 signed; max, max+1 unsigned) in decimal/0x/0o/0b/legacy-octal with one `_` at every position of the digit string and two `_` at every position pair (offset 2) of the forms up to 44 digits, sign none/-, x {{plain, double}} x {{no tag, !!int}} x 3 positions x {} targets x 16 option vectors; \
+         (4) every string of length 1..={short_len} over the 11 symbols 0 1 7 9 f _ x o b + - as a plain root scalar into i8/u8/i64/u64/i128/u128/f64/String/untyped x option vectors {{default, no_schema, legacy_octal_numbers, both}}; \
+         (5) {} Unicode scalar values as a one-character scalar, double-quoted / single-quoted / plain (where the raw parser confirms the rendering), into char / String / deserialize_str / untyped with and without no_schema; at every change of std character class and every plane edge additionally the two-character string, the mapping-key route and the alias route; \
+         (6) ten mantissas x every decimal exponent -400..=400 as f32/f64/Option<f64>/untyped/String; \
+         (7) enum variant names looking like int/hex/separated/bool/null/~/float/.inf/negative-octal/leading-zero/spaced scalars (14 unit, 3 newtype variants + 19 near-miss names) x {{plain, single, double, literal}} x {{no tag, !!str}} x {{root, seq item, map value, alias, key of {{name: payload}}}} x 16 option vectors; \
+         (8) every string of length <= {max_len} over the 12 symbols A B / + = Z a 0 SP LF ? - as a !!binary payload (double-quoted, and plain where the raw parser confirms it) into Bytes / Vec<u8> / String / Val; (9) base64 encodings of all byte arrays of length <= 2",
         corpus.len(),
-        TARGETS.len()
+        TARGETS.len(),
+        TARGETS.len(),
+        sep_tokens.len(),
+        TARGETS.len(),
+        if tier == Tier::Quick { "all 63 488 BMP and every 16th supplementary-plane (plus every class-boundary)" } else { "all 1 112 064" },
     );
     let fin = Finish::new(
-        "a cell (scalar value, style, tag, target) is non-trivial when the token's corpus family is in, or one edit away from, the grammar of the requested target (int tokens for integer targets, int+float tokens for float targets, bool tokens for bool, single/near-single characters for char, base64-like payloads for bytes, null-likes additionally for Option<_>, every token for String / deserialize_str / untyped); distinct by hash(value, style, tag, target) - each such cell is additionally executed at up to 3 positions x 16 option vectors (counter nontrivial_cells_executed); base64 sweep strings count when their non-blank length is within one of a multiple of 4",
+        "a cell (scalar value, style, tag, target) is non-trivial when the token's corpus family is in, or one edit away from, the grammar of the requested target (int tokens for integer targets, int+float tokens for float targets, bool tokens for bool, single/near-single characters for char, base64-like payloads for bytes, null-likes additionally for Option<_>, every token for String / deserialize_str / untyped); distinct by hash(value, style, tag, target) - each such cell is additionally executed at up to 3 positions x 16 option vectors (counter nontrivial_cells_executed); arrival families (alias / merge / key) are distinct by (.., position) as well; short-alphabet tokens count when they have an integer reading under either legacy_octal setting; base64 sweep strings count (once per payload) when their non-blank length is a multiple of 4; long float literals count after their reference value was confirmed by exact big-integer arithmetic",
     )
     .exhaustive(scope)
     .assume("raw saphyr-parser event stream is the ground truth for the scalar's value, style and tag in every generated document")
     .assume("angle_conversions = false (robotics feature compiled in, switched off)")
-    .assume("decimal float reference values come from Rust's correctly rounded str::parse::<f32/f64> on the grammar-checked text (independent of the library's acceptance logic, not of the rounding routine)")
-    .min_nontrivial(if tier == Tier::Quick { 500_000 } else { 5_000_000 });
+    .assume("decimal float reference values come from Rust's str::parse::<f32/f64> on the grammar-checked text; for every corpus, random and long float literal they are cross-checked against an exact big-integer round-to-nearest-even test (vcore::refscalar::decimal_rounds_to) and a disagreement makes the case inconclusive")
+    .min_nontrivial(if tier == Tier::Quick { 4_000_000 } else { 25_000_000 });
     run.finish(fin);
 }
 
